@@ -76,6 +76,11 @@ CHECKS = {
         technique="TLA+ model of the byte pipeline wire -> bufio -> {header parser | bounded copy | stream copy} -> pipe (Handoff.tla) model-checked by TLC for every fragmentation of small streams; a scripted TCP source drives the real sendPSyncCmd / runIncrementalSync / dump worker with framing and fragmentation variants (boundary splits, TLC-simulated segmentations) and TLC judges the recorded observations (HandoffTrace.tla)",
         text="The design property (output always a prefix of RDB ++ commands, remaining count never negative, completion) is model-checked for all fragmentations at small sizes; the binding feeds the real hand-off code over TCP with ~250 (quick) framing x size x fragmentation cases in PSYNC and dump mode, comparing every output byte, the dump file, and the run id / offset / size used afterwards with what the source announced.",
         note="Kernel segment coalescing can hide an intended split (coverage, not soundness); fakesrc stands in for the master; > 32 MiB streams only in the thorough tier."),
+    "C08": dict(
+        level="model_checking", design="DESIGN.md 4/C08",
+        technique="TLA+ model of send / receive / ACK tick / drop / reconnect (Offsets.tla) model-checked by TLC (the pre-fix arithmetic kept as a deviation switch that TLC refutes); complete real-time Sync() runs between a scripted source and a model Redis, with source events, the tool's recv/ack hook events and the target's checkpoints in one sequence validated by TLC (OffsetsTrace.tla)",
+        text="TLC checks ack exactness / monotonicity / never-ahead / exact reconnect / no gap no duplicate for all interleavings at small bounds; the binding is end-to-end: the real DbSyncer.Sync() (checkpoint load, PSYNC, full sync, incremental sync with resume, ACK goroutine, reconnect loop) runs against fakesrc with bursts, idle periods spanning several ACK ticks, drops at and inside command boundaries, start offsets up to 2^40 and starts from a stored checkpoint; TLC judges every ACK, every re-PSYNC offset, the quiescent ACK, the checkpoint offsets and exactly-once application.",
+        note="Real wall-clock tick periods (5-9 s per run; 8 runs quick, 48 thorough, parallel processes); refused re-PSYNC (30 s back-off) only in the thorough tier; offsets are compared relative to the start offset because TLC integers are 32 bit."),
 }
 
 NOT_YET = "check not built yet in this session (work in progress; see DESIGN.md section 7 for the order)"
